@@ -154,11 +154,78 @@ def used_baa_ops(repo: str):
     return used, set(_BAA_OPS) - used
 
 
+# ------------------------------------------------------------------------------------------------ in-crate harnesses
+INJECTED = {
+    # unit -> (crate dir, file that receives the #[cfg(kani)] module, inject file, {tier: [harness names]}, bound text)
+    "dse_delete_entries": ("patronus-dse", "patronus-dse/src/value_summary.rs", "kl/inject/value_summary.rs",
+                           {"quick": ["delete_entries_n0", "delete_entries_n1", "delete_entries_n2", "delete_entries_n3", "delete_entries_requires_is_needed"],
+                            "thorough": ["delete_entries_n0", "delete_entries_n1", "delete_entries_n2", "delete_entries_n3", "delete_entries_n4",
+                                         "delete_entries_n5", "delete_entries_requires_is_needed"]},
+                           "entries.len() <= 3 (quick) / <= 5 (thorough); contents and the ascending delete list are symbolic"),
+}
+
+
+def scratch_tree(repo: str, scratch: str) -> str:
+    tree = os.path.join(scratch, "tree")
+    if not os.path.isdir(tree):
+        subprocess.run(["rsync", "-a", "--exclude", "target", "--exclude", ".git", repo.rstrip("/") + "/", tree + "/"], check=True)
+    return tree
+
+
+def run_injected(unit: str, repo: str, scratch: str, tier: str):
+    from engine.driver import Obligation
+    crate_rel, file_rel, inject_rel, harnesses, bound = INJECTED[unit]
+    tree = scratch_tree(repo, scratch)
+    target = os.path.join(tree, file_rel)
+    marker = "// injected by /verif (engine KL)"
+    text = open(target, encoding="utf-8").read()
+    if marker not in text:
+        open(target, "a", encoding="utf-8").write(open(os.path.join(VERIF, inject_rel), encoding="utf-8").read())
+    names = harnesses[tier]
+    tgt = os.environ.get("VERIF_KANI_TARGET", "/var/tmp/patronus-verif-kani-target")
+    os.makedirs(tgt, exist_ok=True)
+    os.environ["CARGO_TARGET_DIR"] = tgt
+    res, raw, dt = run_kani(os.path.join(tree, crate_rel), names, jobs=min(len(names), int(os.environ.get("VERIF_KANI_JOBS", "10"))),
+                            timeout_s=900 if tier == "quick" else 3600, extra=["--exact"] if False else None)
+    obls = []
+    for n in names:
+        key = next((k for k in res if k.endswith("::" + n) or k == n), None)
+        r = res.get(key) if key else None
+        oid = f"kl:{unit}:{n}"
+        kind = "bounded"
+        if r is None or r["status"] in (None, "TOOL"):
+            obls.append(Obligation(oid, "KL", unit, n, "undecided", "kani/cbmc+cadical", (r or {}).get("time_s") or 0.0,
+                                   detail={"reason": "no result (timeout / out of memory / build failure)", "raw": raw[-1500:] if r is None else "\n".join(r["raw"][-8:])}, kind=kind))
+        elif r["status"] == "SUCCESSFUL":
+            cov = r.get("cover")
+            if cov and cov[0] < cov[1]:
+                obls.append(Obligation(oid, "KL", unit, n, "undecided", "kani/cbmc+cadical", r["time_s"] or 0.0,
+                                       detail={"reason": f"vacuity: only {cov[0]} of {cov[1]} cover properties satisfied"}, kind=kind))
+            else:
+                obls.append(Obligation(oid, "KL", unit, n, "discharged", "kani/cbmc+cadical", r["time_s"] or 0.0, detail={"cover": cov}, kind=kind, src=file_rel))
+        else:
+            fc = r["failed_checks"]
+            if any("unwinding assertion" in x for x in fc) and not any("assertion failed" in x for x in fc):
+                obls.append(Obligation(oid, "KL", unit, n, "undecided", "kani/cbmc+cadical", r["time_s"] or 0.0,
+                                       detail={"reason": "unwinding bound too small", "failed_checks": fc}, kind=kind))
+            else:
+                obls.append(Obligation(oid, "KL", unit, n, "failed", "kani/cbmc+cadical", r["time_s"] or 0.0,
+                                       detail={"errors": [{"message": x} for x in fc] or [{"message": "Kani: VERIFICATION FAILED"}]}, kind=kind, src=file_rel))
+    info = {"unit": unit, "engine": "KL", "harnesses": len(names), "wall_s": round(dt, 1), "bound": bound,
+            "checker_cmd": f"cargo kani -j N --output-format terse --harness <{', '.join(names)}>   (in a scratch copy of /repo with {inject_rel} appended to {file_rel})",
+            "injected_code": inject_rel}
+    return obls, info
+
+
 def run_kl(prop: str, units: List[str], repo: str, scratch: str, tier: str):
     obls, infos = [], []
     for u in units:
         if u == "baa_kernels":
             o, i, _ = run_baa_kernels(repo, scratch, tier)
+            obls += o
+            infos.append(i)
+        elif u in INJECTED:
+            o, i = run_injected(u, repo, scratch, tier)
             obls += o
             infos.append(i)
         else:
